@@ -1,7 +1,9 @@
 /-
   OdfModel.GrammarApi — the grammar decisions of odf/element.py (layer L9, implementation side of C06).
 
-  Element, attribute and keyword names are `Nat` ids (tables in Generated/GrammarNames.lean).
+  Element and attribute names are `Nat` ids (tables in Generated/GrammarNames.lean); a keyword (the
+  `str` handed to setAttribute) is the numeral of its bytes (OdfModel.GrammarNamesCodec), so that
+  comparing keywords is one `Nat.beq`.
   The four tables of odf/grammar.py are association lists in the order of the Python dict / tuple
   (Generated/GrammarTables.lean); `lookup` is `dict.get` (`none` = key missing = Python `None`).
 
@@ -38,7 +40,7 @@ inductive Err where
   | IllegalChild | IllegalText | AttributeError | ValueError
   deriving DecidableEq, Repr
 
-/-- the content of odf/grammar.py, plus the keyword of every attribute id -/
+/-- the content of odf/grammar.py, plus the keyword of every attribute id (`attrKw[a]`, theorem `kw_table_ok`) -/
 structure Tables where
   allowedChildren : List (Nat × Option (List Nat))
   allowsText : List Nat
